@@ -102,6 +102,7 @@ func (r *run) corpus(ctx sdk.Context) error {
 	r.corpusGaps(ctx)
 	r.corpusZeroFee(ctx)
 	r.corpusBaselines(ctx)
+	r.corpusDeep(ctx)
 	return nil
 }
 
@@ -342,6 +343,20 @@ func (r *run) reachAmount(ctx sdk.Context, p amm.PoolInfo, sender int, exactIn b
 	return amt
 }
 
+// roundingSensitive: an allocation whose exact growth per unit of liquidity, coins / L, has a fraction
+// of frac/100 of the 18th decimal (k whole units of it before): truncation and any other rounding of
+// that quotient differ by a whole unit of growth, i.e. by about L * 1e-18 coins claimable.  Needs deep
+// liquidity (L of the order of 1e18 or more); nil when the pool is too shallow for such an amount.
+func roundingSensitive(liqRaw *big.Int, k, frac int64) *big.Int {
+	// coins = floor(L * (k + frac/100) * 1e-18), L = liqRaw * 1e-18
+	n := new(big.Int).Mul(liqRaw, bi(100*k+frac))
+	n.Div(n, pow10(38))
+	if n.Sign() <= 0 {
+		return nil
+	}
+	return n
+}
+
 // restingTick: does the pool's price sit exactly on the price of an initialisable tick next to the cursor?
 func (r *run) restingTick(ctx sdk.Context, p amm.PoolInfo) (int64, bool) {
 	pool, _, _ := r.w.K.GetPool(ctx, p.ID)
@@ -412,6 +427,9 @@ func (r *run) genOp(ctx sdk.Context, p amm.PoolInfo) amm.Op {
 	}
 	if len(poss) == 0 {
 		base := amount()
+		if rd.Chance(1, 4) { // deep: 18-decimals-token scale
+			base = new(big.Int).Mul(bi(int64(1+rd.Intn(9999))), pow10(18+rd.Intn(6)))
+		}
 		quote := new(big.Int).Div(new(big.Int).Mul(base, bi(int64(70+rd.Intn(61)))), bi(100))
 		if quote.Sign() == 0 {
 			quote.SetInt64(1)
@@ -443,6 +461,18 @@ func (r *run) genOp(ctx sdk.Context, p amm.PoolInfo) amm.Op {
 				exactIn := rd.Bool()
 				r.plan[p.ID] = "claim-around"
 				return amm.Op{Kind: "swap", Sender: sender, ExactIn: exactIn, DenomIn: din, Amount: sized(exactIn, din), Tag: "swap/from-resting-tick"}
+			}
+		case "claim-in-range": // after an allocation: the in-range positions of one owner claim
+			var ids []uint64
+			owner := -1
+			for _, o := range poss {
+				if o.LowerTick <= cur && cur < o.UpperTick && (owner < 0 || w.UserIndex(o.Address) == owner) && len(ids) < 3 {
+					owner = w.UserIndex(o.Address)
+					ids = append(ids, o.Id)
+				}
+			}
+			if len(ids) > 0 {
+				return amm.Op{Kind: "claim", Sender: owner, Pids: ids, Tag: "claim/after-allocation"}
 			}
 		case "claim-around": // the positions bounded by / next to the price claim
 			q := pick()
@@ -630,7 +660,21 @@ func (r *run) genOp(ctx sdk.Context, p amm.PoolInfo) amm.Op {
 		if rd.Chance(1, 10) {
 			cs = []*big.Int{bi(0), bi(0), bi(1), bi(0)}
 		}
-		return amm.Op{Kind: "allocate", Sender: 3, Coins: cs, Tag: "allocate"}
+		tag := "allocate"
+		if rd.Bool() { // deep pool: amounts on which the rounding of coins / liquidity matters
+			liq := amm.Raw(pool.CurrentTickLiquidity)
+			hit := false
+			for i := range cs {
+				if a := roundingSensitive(liq, int64(rd.Intn(3)), []int64{50, 51, 75, 99}[rd.Intn(4)]); a != nil && rd.Chance(3, 4) {
+					cs[i], hit = a, true
+				}
+			}
+			if hit {
+				tag = "allocate/rounding-sensitive"
+				r.plan[p.ID] = "claim-in-range"
+			}
+		}
+		return amm.Op{Kind: "allocate", Sender: 3, Coins: cs, Tag: tag}
 	case k < 92: // decrease
 		q := pick()
 		owner := w.UserIndex(q.Address)
@@ -713,4 +757,66 @@ func (r *run) corpusBaselines(ctx sdk.Context) {
 		cl(2, "claim-N2-N1", n1, n2),
 		cl(1, "claim-N3-X", x, n3),
 	})
+}
+
+// corpusDeep: incentive allocations on a pool of 18-decimals-token depth (in-range liquidity far above
+// 1e18): the growth per unit of liquidity, coins / L, has 18 decimals, and one unit of it is worth
+// L * 1e-18 coins to the in-range positions - thousands of coins here.  Allocations whose exact quotient
+// has a fraction of 0.5, 0.51, 0.75, 0.99 of the last decimal, in all four denoms (2 and 3 receive
+// nothing else), each followed at once by the claimable query of every position (monitor 1 runs on
+// every case) and by the claims of the in-range positions; a second in-range position joins halfway.
+func (r *run) corpusDeep(ctx sdk.Context) {
+	p := r.w.Pools[4]
+	z := bi(0)
+	e21 := pow10(21)
+	mk := func(s int, lo, up int64, units int64, tag string) amm.Op {
+		a := new(big.Int).Mul(bi(units), e21)
+		return amm.Op{Kind: "create", Sender: s, Lower: lo, Upper: up, Base: a, Quote: new(big.Int).Set(a), MinBase: z, MinQuote: z, Tag: "corpus/deep/" + tag}
+	}
+	al := func(tag string, spec ...int64) amm.Op { // spec: k, frac per denom; fixed from the liquidity when the case runs
+		cs := make([]*big.Int, 4)
+		for i := range cs {
+			cs[i] = bi(100*spec[2*i] + spec[2*i+1]) // carrier, replaced below
+		}
+		return amm.Op{Kind: "allocate", Sender: 3, Coins: cs, Tag: "corpus/deep/alloc/" + tag}
+	}
+	cl := func(s int, tag string, ids ...uint64) amm.Op {
+		return amm.Op{Kind: "claim", Sender: s, Pids: ids, Tag: "corpus/deep/" + tag}
+	}
+	first := r.nextID(ctx)
+	d1, d2 := first, first+1
+	ops := []amm.Op{
+		mk(0, -20, 20, 3, "D1-deep"),
+		al("0.75-of-the-last-decimal", 0, 75, 0, 75, 0, 75, 0, 75),
+		cl(0, "claim-D1", d1),
+		al("1.5-and-0.51", 1, 50, 0, 51, 1, 50, 0, 51),
+		cl(0, "claim-D1", d1),
+		mk(1, -5, 7, 2, "D2-deep-narrow"),
+		al("two-positions-0.99-and-2.5", 0, 99, 2, 50, 2, 50, 0, 99),
+		cl(0, "claim-D1", d1),
+		cl(1, "claim-D2", d2),
+		al("two-positions-0.5", 0, 50, 0, 50, 0, 50, 0, 50),
+		cl(1, "claim-D2", d2),
+		cl(0, "claim-D1", d1),
+		{Kind: "swap", Sender: 2, ExactIn: true, DenomIn: 1, Amount: new(big.Int).Mul(bi(7), pow10(18)), Tag: "corpus/deep/swap-up-a-little"},
+		al("after-a-swap-0.75", 0, 75, 1, 75, 0, 75, 3, 75),
+		cl(1, "claim-D2", d2),
+		cl(0, "claim-D1", d1),
+	}
+	gh := r.gh[p.ID]
+	for _, o := range ops {
+		if strings.HasPrefix(o.Tag, "corpus/deep/alloc/") {
+			pool, _, _ := r.w.K.GetPool(ctx, p.ID)
+			liq := amm.Raw(pool.CurrentTickLiquidity)
+			for i, c := range o.Coins {
+				v := c.Int64()
+				if a := roundingSensitive(liq, v/100, v%100); a != nil {
+					o.Coins[i] = a
+				} else {
+					o.Coins[i] = bi(v)
+				}
+			}
+		}
+		r.doCase(ctx, p, o, gh, false)
+	}
 }
